@@ -71,10 +71,13 @@ fn word(first: bool) -> BoxedStrategy<(String, &'static str)> {
         "[A-Z][a-z]{1,6},".prop_map(|s| s),
     ]
     .prop_map(|s| (s, "punctuation"));
+    // hyphenated compounds of arbitrary components (words, all-caps, numbers, letter-digit mixes, apostrophe years)
+    let comp = || prop_oneof![3 => "[A-Z][a-z]{0,5}", 1 => "[A-Z]{1,3}", 2 => "[0-9]{1,4}", 2 => "[A-Z][a-z]{0,3}[0-9]{1,3}", 1 => "[0-9]{1,2}[A-Z][a-z]{0,3}", 1 => "'[0-9]{2}", 1 => "[A-Z][0-9][A-Z]"];
+    let compound = prop::collection::vec(comp(), 2 .. 4).prop_map(|v| (v.join("-"), "compound"));
     if first {
-        prop_oneof![8 => cap, 2 => caps, 1 => dotted, 1 => dotted2, 2 => num, 1 => mixed, 1 => hyph, 1 => numhyph, 1 => numtext, 1 => punct].boxed()
+        prop_oneof![8 => cap, 2 => caps, 1 => dotted, 2 => compound.clone(), 1 => dotted2, 2 => num, 1 => mixed, 1 => hyph, 1 => numhyph, 1 => numtext, 1 => punct].boxed()
     } else {
-        prop_oneof![8 => cap, 2 => lower, 2 => caps, 1 => dotted, 2 => rom, 3 => num, 1 => mixed, 2 => hyph, 1 => numhyph, 1 => numtext, 2 => punct].boxed()
+        prop_oneof![8 => cap, 2 => lower, 2 => caps, 1 => dotted, 2 => compound, 2 => rom, 3 => num, 1 => mixed, 2 => hyph, 1 => numhyph, 1 => numtext, 2 => punct].boxed()
     }
 }
 
@@ -185,7 +188,7 @@ impl Prop for C20 {
 
     fn rule(&self) -> String {
         "names generated from the grammar CONTRIBUTING.md describes (1-6 words: capitalised words, small words, ALL-CAPS, dotted acronyms, roman numerals I-MMCMXCIX, numbers and \
-         years in first / inner / last position, letter-digit mixes, hyphenated words, number-hyphen-number incl. apostrophes, number-hyphen-text, punctuation : ' & . ! ,; optional \
+         years in first / inner / last position, letter-digit mixes, hyphenated words, hyphenated compounds of 2-3 arbitrary components (words, all-caps, numbers, letter-digit mixes, apostrophe years), number-hyphen-number incl. apostrophes, number-hyphen-text, punctuation : ' & . ! ,; optional \
          '(year)' or '(edition)' suffix; optional ' - Mod' part). Single game, fresh checker: two different wrong lower-case ids are proposed; the sets of expected ids the checker \
          reports must be equal, non-empty, every reported id must be accepted when proposed, and both wrong ids must be rejected; further candidate ids are derived from the reported ones (upper-case variants of one letter / a prefix / the whole id, deletion, insertion, replacement, transposition, prefix, concatenations, the empty id) and must be accepted exactly when they are members of the reported set, with the same reported set. Lists of 1-4 games (ids taken from the reported \
          ones, their duplicates and wrong ones) are checked for totality. The shipped table must pass. Any panic is a violation. non-trivial = the name uses at least two grammar \
